@@ -40,7 +40,10 @@ func (o *orbitDBDocumentStore) Get(_ context.Context, key string, opts *iface.Do
 
 	documents := []interface{}(nil)
 
-	for _, indexKey := range docIndex.Keys() {
+	// keys and values are read from ONE state of the view: read in separate
+	// steps, an update landing in between made Get fail on a key that had just
+	// been deleted, or return documents of two different states
+	for indexKey, value := range docIndex.snapshot() {
 		indexKeyForSearch := indexKey
 
 		if opts.CaseInsensitive {
@@ -60,17 +63,8 @@ func (o *orbitDBDocumentStore) Get(_ context.Context, key string, opts *iface.Do
 			}
 		}
 
-		value := o.Index().Get(indexKey)
-		if value == nil {
-			return nil, fmt.Errorf("value not found for key %s", indexKey)
-		}
-
-		if _, ok := value.([]byte); !ok {
-			return nil, fmt.Errorf("invalid type for key %s", indexKey)
-		}
-
 		out := o.docOpts.ItemFactory()
-		if err := o.docOpts.Unmarshal(value.([]byte), &out); err != nil {
+		if err := o.docOpts.Unmarshal(value, &out); err != nil {
 			return nil, fmt.Errorf("unable to unmarshal value for key %s: %w", indexKey, err)
 		}
 
@@ -186,14 +180,11 @@ func (o *orbitDBDocumentStore) Query(_ context.Context, filter func(doc interfac
 	}
 
 	documents := []interface{}(nil)
-	for _, indexKey := range docIndex.Keys() {
-		doc := docIndex.Get(indexKey)
-		if doc == nil {
-			continue
-		}
 
+	// (one state of the view: see Get)
+	for _, doc := range docIndex.snapshot() {
 		value := o.docOpts.ItemFactory()
-		if err := o.docOpts.Unmarshal(doc.([]byte), &value); err != nil {
+		if err := o.docOpts.Unmarshal(doc, &value); err != nil {
 			return nil, fmt.Errorf("unable to unmarshal document: %w", err)
 		}
 
